@@ -46,6 +46,8 @@ pub struct Directive {
     /// raw bytes (given in hex) quoted inside the message of the directed ErrorResponse, the way PostgreSQL quotes an offending
     /// identifier in the client's encoding (LATIN1, SQL_ASCII): not necessarily UTF-8
     pub err_raw: Vec<u8>,
+    /// the first Parse of this statement text on a backend is rejected (relation does not exist yet), later ones succeed
+    pub failonce: bool,
 }
 
 impl Directive {
@@ -86,6 +88,7 @@ impl Directive {
                 "close" => d.close_at = v.parse().ok(),
                 "delay" => d.delay_ms = v.parse().unwrap_or(0),
                 "failparse" => d.failparse = true,
+                "failonce" => d.failonce = true,
                 "suspend" => d.suspend = true,
                 "noticelen" => d.notice_len = v.parse().unwrap_or(0),
                 "hangafter" => d.hang_after = v.parse().ok(),
